@@ -22,11 +22,17 @@ PROVED (every history, threshold, flush timing, map-order oracle, crash point):
 Regression witnesses for the code BEFORE the two fixes (`Shape.old`), by `decide`:
 `C11_window_counterexample_oldshape`, `C11_torn_tail_append_counterexample_oldshape`; the same
 scenarios on the current shape: `C11_window_recovers`, `C11_torn_tail_append_fixed`.
-NOT PROVED: the single whole-history statement `C11_crash_safe` (recovered state = in-memory
-state after some event prefix j ≥ last fully written); it is checked at every operation index and
-cut of every generated life against the real NewSnapshotter.
+  * `C11_crash_safe` (+ `C11_crash_safe_at`, `C11_crash_safe_flat`) — THE WHOLE-HISTORY STATEMENT:
+    for every life without a graceful leave (hypothesis `WFEv`: names without newline — the open
+    finding of C10), EVERY crash point — every prefix of the emitted operation list and every byte
+    cut of the write in progress — the restart recovers, up to the order of the rejoin map, one of
+    the in-memory states the node went through between the last point at which nothing was
+    buffered (everything flushed, or a compaction completed) and the state it is recording at the
+    moment of the crash: never older than what was flushed, never newer than what was written,
+    never empty or corrupt.  The life is cut into pieces (`lifePieces`: the first open, the writes
+    of each append, each compaction, the final flush) each carrying its window of states.
 -/
-import SerfProofs.Lemmas.SnapshotCrash
+import SerfProofs.Lemmas.SnapshotPieces
 namespace SerfProofs.C11
 open SerfModel SerfModel.Snapshot SerfProofs.Snapshot
 
@@ -84,6 +90,47 @@ theorem C11_torn_tail_truncated (rj : Bool) (mc : Nat) (x p : Bytes) (hx : endsN
     (fs : FS) (hfs : fs.main = some (x ++ p)) :
     (fs.applyAll (Snap.openOn rj mc fs).2).main = some x ∧ (Snap.openOn rj mc fs).1.offset = x.length :=
   openOn_truncates rj mc x p hx hp hne fs hfs
+
+/-- **C11, whole histories.** The pieces of a life are exactly the operations the model emits,
+and at every crash point `(k, cut)` of every piece the state a restart recovers from the
+directory is (up to the order of the rejoin map) a state of that piece's window: the in-memory
+states from the last quiescent point (nothing buffered) up to the state being recorded. -/
+theorem C11_crash_safe (ord : Order) (hord : PermOrder ord) (rj : Bool) (mc : Nat) (evs : List Ev) (clk : Nat)
+    (hwf : ∀ e ∈ evs, WFEv e) (hnl : Ev.leave ∉ evs) :
+    opsOf (lifePieces ord rj mc evs clk) = (life ord rj mc {} evs clk).2 ∧
+    PiecesSafe rj {} (lifePieces ord rj mc evs clk) :=
+  life_pieces_safe ord hord rj mc evs clk hwf hnl
+
+/-- the same, read by position: crash inside piece `i` (after all operations of the earlier
+pieces), before its operation `k`, with `cut` bytes of that write on disk -/
+theorem C11_crash_safe_at (ord : Order) (hord : PermOrder ord) (rj : Bool) (mc : Nat) (evs : List Ev) (clk : Nat)
+    (hwf : ∀ e ∈ evs, WFEv e) (hnl : Ev.leave ∉ evs)
+    (i : Nat) (hi : i < (lifePieces ord rj mc evs clk).length) (k cut : Nat) :
+    ∃ m ∈ (lifePieces ord rj mc evs clk)[i].win,
+      RecEq (recover rj (FS.crashAt (FS.applyAll {} (opsOf ((lifePieces ord rj mc evs clk).take i)))
+        (lifePieces ord rj mc evs clk)[i].ops k cut)) m :=
+  PiecesSafe_get rj _ _ (life_pieces_safe ord hord rj mc evs clk hwf hnl).2 i hi k cut
+
+/-- the same for a crash point of the flat operation list of the life -/
+theorem C11_crash_safe_flat (ord : Order) (hord : PermOrder ord) (rj : Bool) (mc : Nat) (evs : List Ev) (clk : Nat)
+    (hwf : ∀ e ∈ evs, WFEv e) (hnl : Ev.leave ∉ evs) (k cut : Nat) :
+    ∃ p ∈ lifePieces ord rj mc evs clk, ∃ m ∈ p.win,
+      RecEq (recover rj (FS.crashAt {} (life ord rj mc {} evs clk).2 k cut)) m := by
+  obtain ⟨hops, hsafe⟩ := life_pieces_safe ord hord rj mc evs clk hwf hnl
+  have := PiecesSafe_flat rj _ _ hsafe (by simp [lifePieces]) k cut
+  rw [hops] at this
+  exact this
+
+/-- non-vacuity: a history with a compaction; crash in the remove..rename window (operation 9 of
+the flat list, see `cexOps`) -/
+example : ∃ p ∈ lifePieces Order.id false 0 [.join [(['a'], ['1', ':', '2'])] 2, .forceCompact] 2, ∃ m ∈ p.win,
+    RecEq (recover false (FS.crashAt {} (life Order.id false 0 {} [.join [(['a'], ['1', ':', '2'])] 2, .forceCompact] 2).2 9 0)) m :=
+  C11_crash_safe_flat Order.id (fun _ m => List.Perm.refl m) false 0 _ 2
+    (by
+      intro e he
+      simp only [List.mem_cons, List.mem_nil_iff, or_false] at he
+      rcases he with rfl | rfl <;> simp [WFEv, WFName, WFAddr])
+    (by decide) 9 0
 
 /-! ### the former findings: witnesses for the old code, and the same scenarios now -/
 
